@@ -78,6 +78,9 @@ def verify_function(qual, timeout_ms=60000, canary=True, shard=None):
     res["dropped"] = sorted(set(ex.dropped))
     res["trusted_base"] = sorted(getattr(ex, "trusted", set()))
     res["callee_contracts"] = sorted(getattr(ex, "called", set()))
+    res["local_axioms"] = sorted({a.name for a in ct.axioms})  # definitions / lemmas used only for this function (lemmas are proved in lemmas/zlemmas.py)
+    res["excluded_axioms"] = list(getattr(ct, "exclude", []))
+    res["derived_by"] = list(getattr(ct, "derived_by", []))
     worst = "proved"
     res["generated"] = len(obls)
     for idx, (key, ob) in enumerate(obls.items()):
